@@ -1,8 +1,11 @@
 #!/bin/bash
-# usage: try_seed.sh <Cxx> <patch.diff> [tier]  -- apply a seeded change to /repo, run the check, undo it
+# usage: try_seed.sh <Cxx> <patch.diff> [tier]  -- apply a seeded change to /repo, run the check, undo it.
+# The evidence file of the property is saved and restored: committed evidence must come from the unchanged tree.
 P=$1; PATCH=$2; TIER=${3:-quick}
+cp /verif/evidence/$P.json /var/tmp/evidence_$P.json.keep 2>/dev/null
 cd /repo && git apply $PATCH || { echo "patch does not apply"; exit 2; }
 cd /verif && ./check $P --tier $TIER 2>&1 | grep -E "VIOLATION|KNOWN|\[check\] C|ERROR" | cut -c1-300
 rc=${PIPESTATUS[0]}
 cd /repo && git checkout -- . && git status --short | head -3
+cp /var/tmp/evidence_$P.json.keep /verif/evidence/$P.json 2>/dev/null; rm -f /var/tmp/evidence_$P.json.keep
 exit $rc
